@@ -24,6 +24,9 @@ fn rel_result(cp: u32, r: Value) -> Value {
     if let Some(a) = r.get("ok").and_then(|a| a.as_array()) {
         let v: Vec<u32> = a.iter().map(|x| x.as_u64().unwrap() as u32).collect();
         json!({ "ok": rel(cp, &v) })
+    } else if r.get("panic").is_some() {
+        // normalized: the message text (which may mention the code point) is not part of the observable
+        json!({"panic": "P"})
     } else {
         r
     }
@@ -34,7 +37,12 @@ fn s3(parts: &[u32]) -> String {
 }
 
 fn ctx_obs(rule: &str, label: &[u32], off: usize) -> Value {
-    call_ctx(rule, &s3(label), off)
+    let r = call_ctx(rule, &s3(label), off);
+    if r.get("panic").is_some() {
+        json!({"panic": "P"})
+    } else {
+        r
+    }
 }
 
 fn dir_ok(label: &[u32]) -> Value {
@@ -43,6 +51,8 @@ fn dir_ok(label: &[u32]) -> Value {
         json!("T")
     } else if r.get("err").and_then(|e| e.as_str()) == Some("Invalid") {
         json!("F")
+    } else if r.get("panic").is_some() {
+        json!("PANIC")
     } else {
         json!(format!("E:{}", r))
     }
